@@ -294,6 +294,63 @@ def make_long(case, rng):
     return True
 
 
+def include_configured_values(case, rng):
+    """every enabled scalar list parameter also lists its own CONFIGURED value (sequential mode: several runs then have
+    the same full value set — each is still a requested element of the space)"""
+    for p in case["params"]:
+        if p["enabled"] and not p.get("multi") and isinstance(p.get("decl"), list) and "expect" in p:
+            d = default_of(case, p["key"])
+            if isinstance(d, (int, float)) and not isinstance(d, bool) and d not in p["expect"]:
+                pos = rng.randrange(len(p["expect"]) + 1)
+                p["expect"] = p["expect"][:pos] + [d] + p["expect"][pos:]
+                p["decl"] = list(p["expect"])
+
+
+def interleave_same_name(case, rng):
+    """two enabled parameters with the same last key part and ANOTHER enabled parameter declared between them"""
+    en = [p for p in case["params"] if not p.get("on_disabled_model")]
+    last = lambda p: p["key"].split(".")[-1]  # noqa: E731
+    pair = next(((a, b) for i, a in enumerate(en) for b in en[i + 1:] if last(a) == last(b)), None)
+    if pair is None:
+        return False
+    a, b = pair
+    others = [p for p in en if p is not a and p is not b and last(p) != last(a)]
+    if not others:
+        k = "detector.characteristics.quantum_efficiency"
+        vals = rng.sample(FIELD_POOL[k], 2)
+        others = [({"key": k, "decl": "_", "enabled": True, "width": None} if case["mode"] == "custom"
+                   else {"key": k, "decl": vals, "expect": vals, "enabled": True, "multi": False})]
+        case["fields"] = sorted(set(case["fields"]) | {k[len("detector."):]})
+    x = others[0]
+    for p in (a, x, b):
+        p["enabled"] = True
+    rest = [p for p in case["params"] if p is not a and p is not b and p is not x]
+    case["params"] = [a, x, b] + rest
+    if case["mode"] == "custom":
+        case["table"] = gen_table(rng, case["params"])
+    return True
+
+
+def func_named_models(case, rng):
+    """a group that uses the probe function twice: a custom-named model declared BEFORE a model named like the function
+    (`stamp`); the sweep addresses the second one by its name"""
+    g = rng.choice(GROUPS[1:9])
+    arg = rng.choice(ARG_NAMES)
+    first = {"group": g, "name": rng.choice(["background", "m", "extra"]), "args": {arg: rng.randrange(100), "z": 1}}
+    second = {"group": g, "name": "stamp", "args": {arg: rng.randrange(100), "z": 2}}
+    case["models"] = [m for m in case["models"] if m["group"] != g] + [first, second]
+    key = f"pipeline.{g}.stamp.arguments.{arg}"
+    case["params"] = [p for p in case["params"] if not p["key"].startswith(f"pipeline.{g}.")]
+    if case["mode"] == "custom":
+        case["params"].insert(0, {"key": key, "decl": "_", "enabled": True, "width": None})
+        case["table"] = gen_table(rng, case["params"])
+    else:
+        vals = _scalar_values(rng, rng.choice([2, 3]), "int")
+        case["params"].insert(rng.randrange(len(case["params"]) + 1),
+                              {"key": key, "decl": vals, "expect": vals, "enabled": True, "multi": False})
+    case["fields"] = sorted({p["key"][len("detector."):] for p in case["params"] if p["key"].startswith("detector.")})
+
+
 def add_off_model(case, rng):
     """a switched-off model (it would change its pixel if it ran) and DISABLED parameters pointing at its arguments:
     'disabled parameters are ignored' — whatever they point at"""
@@ -1029,6 +1086,25 @@ def body(ck: common.Check):
                                 "enabled": True, "multi": False, "missing_key": True})
         c["invalid"] = kind
         cases.append(("invalid", c))
+    # sequential mode, >= 2 enabled parameters whose lists contain their own configured value (both paths)
+    for wd in (False, True):
+        for _ in range(40):
+            c = gen_case(rng, mode="sequential", with_dask=wd, flavour="plain", max_runs=8, off_model=False)
+            if sum(1 for p in c["params"] if p["enabled"] and isinstance(p["decl"], list) and not p.get("multi")
+                   and isinstance(default_of(c, p["key"]), (int, float))) >= 2:
+                break
+        include_configured_values(c, rng)
+        cases.append(("directed", c))
+    # a group using the probe function twice, the second model named like the function (all modes; both paths)
+    for mode, wd in (("product", False), ("sequential", True), ("custom", False)):
+        c = gen_case(rng, mode=mode, with_dask=wd, flavour="plain", max_runs=6, off_model=False)
+        func_named_models(c, rng)
+        cases.append(("directed", c))
+    # same-named parameters with another parameter declared between them (dask path: names zipped with the tuple)
+    for mode in ("product", "sequential"):
+        c = gen_case(rng, mode=mode, with_dask=True, flavour="two_models_same_arg", max_runs=8, off_model=False)
+        interleave_same_name(c, rng)
+        cases.append(("directed", c))
     # value lists of mixed kinds (text + number, bool + number) for an argument that accepts anything
     for mode, wd in (("product", False), ("sequential", False), ("product", True), ("sequential", True)):
         for _ in range(40):
